@@ -67,7 +67,47 @@ func genBlockPlan(seed uint64, thorough bool) *Plan {
 	p := &Plan{Prop: "C11", Seed: seed, Knobs: Knobs{RandSeed: int64(seed), MaxSteps: 60000, IdleCap: 3000}}
 	p.Knobs.Sticky = []int{0, 20, 50, 80}[g.r.IntN(4)]
 	p.Knobs.Frag = g.chance(4)
-	class := g.r.IntN(4)
+	class := g.r.IntN(5)
+	if class == 4 {
+		// giveup class: the first waiter in line gives up (timeout, CLIENT
+		// UNBLOCK) at about the moment a push arrives; the element must reach it
+		// or the waiter behind it - never stay in the list with somebody blocked
+		p.Class = "giveup"
+		k := keys[0]
+		to := g.pick("0.05", "0.3", "1")
+		how := g.pick("timeout", "unblock", "unblock-error")
+		if how != "timeout" {
+			to = g.pick("0", "100")
+		}
+		p.Clients = append(p.Clients, Client{Name: "waiter", Items: []Item{{Args: bs(g.pick("BLPOP", "BRPOP"), k, to)}, cmdItem("PING")}})
+		nb := 1 + g.r.IntN(2)
+		for w := 0; w < nb; w++ {
+			p.Clients = append(p.Clients, Client{Name: "waiter", Items: []Item{{Op: "await-blocked", N: int64(w)}, cmdItem(g.pick("BLPOP", "BRPOP"), k, "0")}})
+		}
+		// the event that ends the first waiter's block
+		var ender []Item
+		ender = append(ender, Item{Op: "await-blocked", N: int64(nb)})
+		switch how {
+		case "timeout":
+			d, _ := time.ParseDuration(to + "s")
+			ender = append(ender, Item{Op: "adv", N: int64(d) - int64(time.Millisecond)}, Item{Op: "adv", N: int64(2 * time.Millisecond)})
+		case "unblock":
+			ender = append(ender, cmdItem("CLIENT", "UNBLOCK", "$id:0"))
+		default:
+			ender = append(ender, cmdItem("CLIENT", "UNBLOCK", "$id:0", "ERROR"))
+		}
+		p.Clients = append(p.Clients, Client{Name: "ender", Items: ender})
+		g.client = 9
+		push := []Item{{Op: "await-blocked", N: int64(nb)}}
+		for i := 0; i < 1+g.r.IntN(2); i++ {
+			push = append(push, cmdItem(g.pick("LPUSH", "RPUSH"), k, g.val()))
+		}
+		p.Clients = append(p.Clients, Client{Name: "pusher", Items: push})
+		obs := observation(append(append([]string{}, keys...), "dst"), 2)
+		obs.Items = append([]Item{{Op: "await-idle"}}, obs.Items[1:]...)
+		p.Clients = append(p.Clients, obs)
+		return p
+	}
 	if class == 0 {
 		// FIFO class: waiters on one key, registered in a known order, one pusher, no competitor
 		p.Class = "fifo"
@@ -147,16 +187,28 @@ func genBlockPlan(seed uint64, thorough bool) *Plan {
 		return p
 	}
 	p.Class = "mixed"
+	timed := g.chance(3)
+	if timed {
+		p.Class = "mixed-timed"
+		p.Knobs.RandAdv = 6
+	}
 	nc := 2 + g.r.IntN(3)
 	for c := 0; c < nc; c++ {
 		g.client = c + 1
 		var items []Item
 		n := 1 + g.r.IntN(3)
 		for i := 0; i < n; i++ {
-			items = append(items, Item{Args: bs(g.blockingPop(keys, g.pick("0", "0", "0", "100"))...)})
+			to := g.pick("0", "0", "0", "100")
+			if timed {
+				// waits that end by themselves while pushes arrive: a waiter that
+				// gives up must not take a wake-up with it
+				to = g.pick("0", "0.05", "0.3", "0.001")
+			}
+			items = append(items, Item{Args: bs(g.blockingPop(keys, to)...)})
 		}
 		p.Clients = append(p.Clients, Client{Name: "consumer", Items: items})
 	}
+	nconsumers := nc
 	np := 1 + g.r.IntN(3)
 	for c := 0; c < np; c++ {
 		g.client = 10 + c
@@ -187,12 +239,23 @@ func genBlockPlan(seed uint64, thorough bool) *Plan {
 		p.Clients = append(p.Clients, Client{Name: "producer", Items: items})
 	}
 	nq := g.r.IntN(3)
+	if timed {
+		nq = 1 + g.r.IntN(2)
+	}
 	for c := 0; c < nq; c++ {
 		g.client = 20 + c
 		var items []Item
 		n := 1 + g.r.IntN(3)
 		for i := 0; i < n; i++ {
 			k := keys[g.r.IntN(len(keys))]
+			if timed && g.chance(3) {
+				ub := []string{"CLIENT", "UNBLOCK", "$id:" + strconv.Itoa(g.r.IntN(nconsumers))}
+				if g.chance(3) {
+					ub = append(ub, g.pick("TIMEOUT", "ERROR"))
+				}
+				items = append(items, cmdItem(ub...))
+				continue
+			}
 			switch g.r.IntN(9) {
 			case 8:
 				// a flush empties the lists; whoever is blocked stays blocked and
